@@ -503,6 +503,11 @@ def slice_(R, v, lo, hi):
         if hi <= a:
             return ZV(z3.Empty(z3.SeqSort(R.S.sort_of(k))), ('seq', k))
         return ZV(z3.SubSeq(e, z3.IntVal(a), z3.IntVal(hi - a)), ('seq', k))
+    if clo and isinstance(hi, int) and not isinstance(hi, bool) and hi < 0:
+        # xs[a:-k] with concrete a >= 0, k > 0: seq.extract(xs, a, n - k - a) (empty when the length is <= 0 or a > n,
+        # exactly as Python)
+        a = lo or 0
+        return ZV(z3.SubSeq(e, z3.IntVal(a), n + hi - a), ('seq', k))
     # symbolic bounds that are provably non-negative on this path need no wrap-around encoding
     zl = None if lo is None else R.z(lo, 'int')
     zh = None if hi is None else R.z(hi, 'int')
